@@ -119,43 +119,70 @@ def bool_local_switches(body, l):
     return out
 
 
-def derived_guard_edges(body, base_edges, edge_ok=None, polarity=True):
-    """close a set of pass-edges under: bool local L all of whose `true` (polarity) stores are
-    unreachable once the pass-edges are cut (and which has no non-constant store) => the
-    `true` out-edges of switches on L are pass-edges too."""
+def derived_guard_edges(body, base_edges, edge_ok=None, polarity=None, pred=None):
+    """close a set of pass-edges under: bool local L such that every definition that can give it the
+    value T is (a) unreachable once the pass-edges are cut, or (b) a constant != T, or (c) a value
+    whose being T implies the guard `pred` (all alternatives of its disjunctive form satisfy pred)
+    => the T out-edges of switches on L are pass-edges too.  polarity None = both."""
+    facts = body.facts
     edges = set(base_edges)
-    # candidate bool locals: assigned constants only
     cands = {}
     for l, defs in body._all_defs().items():
         if body.locals[l]['ty'] != 'bool' or l <= body.nargs:
             continue
-        ok = True
-        tstores = []
-        for (bi, si, kind, pr, rv) in defs:
-            if kind != 'a' or pr != []:
-                ok = False
-                break
-            if rv[0] == 'use' and rv[1][0] == 'k' and isinstance(rv[1][2], bool):
-                if rv[1][2] == polarity:
-                    tstores.append(bi)
-            else:
-                ok = False
-                break
-        if ok and tstores:
-            cands[l] = tstores
+        if all(d[3] == [] for d in defs) and bool_local_switches(body, l):
+            cands[l] = defs
+    pols = (True, False) if polarity is None else (polarity,)
+    done = set()
     changed = True
     while changed:
         changed = False
         seen = body.reachable(cut_edges=edges, edge_ok=edge_ok)
-        for l, tstores in list(cands.items()):
-            if all(b not in seen for b in tstores):
-                for (bi, tt, ft) in bool_local_switches(body, l):
-                    e = tt if polarity else ft
-                    if e is not None and e not in edges:
-                        edges.add(e)
-                        changed = True
-                del cands[l]
+        for l, defs in cands.items():
+            for T in pols:
+                if (l, T) in done:
+                    continue
+                good = True
+                nontrivial = False
+                for (bi, si, kind, pr, rv) in defs:
+                    if bi not in seen:
+                        nontrivial = True
+                        continue
+                    if kind == 'a' and rv[0] == 'use' and rv[1][0] == 'k' and isinstance(rv[1][2], bool):
+                        if rv[1][2] == T:
+                            good = False
+                            break
+                        continue
+                    if pred is None:
+                        good = False
+                        break
+                    if kind == 'a':
+                        node = facts.origin.rvalue(body, rv, bi, si, 0, None)
+                    elif kind == 'call':
+                        node = facts.origin.call_node(body, rv, bi, 0, None)
+                    else:
+                        good = False
+                        break
+                    alts = bool_dnf(node, T)
+                    if not all(any(_safe(pred, f) for f in alt) for alt in alts):
+                        good = False
+                        break
+                    nontrivial = True
+                if good and nontrivial:
+                    done.add((l, T))
+                    for (bi, tt, ft) in bool_local_switches(body, l):
+                        e = tt if T else ft
+                        if e is not None and e not in edges:
+                            edges.add(e)
+                            changed = True
     return edges
+
+
+def _safe(pred, f):
+    try:
+        return bool(pred(f))
+    except Exception:
+        return False
 
 
 def cut_sites(body, sites, edges, edge_ok=None, start=0):
@@ -217,3 +244,133 @@ def must_write_fields(facts, body, adt):
         if all(rb not in seen or rb in blocks for rb in body.return_blocks()) or 0 in blocks:
             out[f] = sts
     return out
+
+
+def mcalls(F, body, adt, name, trait=None):
+    """call sites in body whose resolved callee is method `name` of `adt` (module independent)"""
+    m = F.method(adt, name, trait)
+    if m is None:
+        return []
+    return [x for x in body.calls() if body.callee_name(x[1]) == m.key]
+
+
+def is_method(F, callee_name, adt, name):
+    m = F.method(adt, name)
+    return m is not None and m.key == callee_name
+
+
+def mpred(F, adt, *names):
+    if adt == '__ext__':
+        return lambda n: any(n.endswith('::' + x) for x in names)
+    keys = {F.method(adt, n).key for n in names if F.method(adt, n) is not None}
+    return lambda n: n in keys
+
+
+def fleafs(node):
+    return {l for l in leafs(node) if l.startswith('F:')}
+
+
+def pure_bool_call_edges(facts, body, callee_pred, truth, must, allowed=None, forbid=()):
+    """like bool_call_edges, but the arguments' field leaves must include `must` and (if given) be
+    within `allowed` (so that a check applied to the wrong field does not count)"""
+    def pred(f):
+        if f[0] != 'bool' or f[2] != truth:
+            return False
+        n = strip(f[1])
+        if n[0] != 'call' or not callee_pred(n[1]):
+            return False
+        ls = set()
+        for a in n[2]:
+            ls |= leafs(a)
+        if not set(must) <= ls:
+            return False
+        if set(forbid) & ls:
+            return False
+        if allowed is not None:
+            fl = {l for l in ls if l.startswith('F:')}
+            if not fl <= set(allowed) | set(must):
+                return False
+        return True
+    return guard_edges(facts, body, pred)
+
+
+def agg_sites(body, adt, variants=None):
+    """(bb, si, variant) of aggregate constructions of adt (optionally restricted to variants)"""
+    out = []
+    for bi, bl in enumerate(body.blocks):
+        if bl['cl']:
+            continue
+        for si, s in enumerate(bl['s']):
+            if s[0] == 'a' and s[2][0] == 'agg' and s[2][1]['k'] == 'adt' and s[2][1]['adt'] == adt:
+                if variants is None or s[2][1]['variant'] in variants:
+                    out.append((bi, si, s[2][1]['variant']))
+    return out
+
+
+# ---------------------------------------------------------------------------------------------
+# predicate builders (a guard = predicate over edge facts); pass_edges closes them under derived
+# bool locals so that `let ok = a || b; if !ok { return }` is recognised like the inline form
+# ---------------------------------------------------------------------------------------------
+
+def p_rel(opclass, left, right, either_order=True, forbid=()):
+    def pred(f):
+        if f[0] != 'rel':
+            return False
+        if forbid and (set(forbid) & (leafs(f[2]) | leafs(f[3]))):
+            return False
+        if opclass == 'le_or_eq':
+            return rel_matches(f, 'lt', left, right, either_order) or rel_matches(f, 'eq', left, right, either_order)
+        return rel_matches(f, opclass, left, right, either_order)
+    return pred
+
+
+def p_call(callee_pred, truth, must=(), forbid=()):
+    def pred(f):
+        if f[0] != 'bool' or f[2] != truth:
+            return False
+        n = strip(f[1])
+        if n[0] != 'call' or not callee_pred(n[1]):
+            return False
+        ls = set()
+        for a in n[2]:
+            ls |= leafs(a)
+        return set(must) <= ls and not (set(forbid) & ls)
+    return pred
+
+
+def p_is(adt, variants, subject_leafs=(), positive=True):
+    def pred(f):
+        if f[0] == 'is' and f[3] == adt and set(subject_leafs) <= leafs(f[1]):
+            return (f[2] in variants) == positive
+        if f[0] == 'isnot' and f[3] == adt and not positive and set(subject_leafs) <= leafs(f[1]):
+            return set(variants) <= set(f[2])
+        if f[0] == 'rel' and f[1] in ('Eq', 'Ne'):
+            a, b = strip(f[2]), strip(f[3])
+            for x, y in ((a, b), (b, a)):
+                if y[0] == 'variant' and y[1].rsplit('::', 1)[0] == adt and set(subject_leafs) <= leafs(x):
+                    vn = y[1].rsplit('::', 1)[-1]
+                    holds = (f[1] == 'Eq')
+                    if positive and holds and vn in variants:
+                        return True
+                    if not positive and not holds and set(variants) <= {vn}:
+                        return True
+        return False
+    return pred
+
+
+def p_any(*preds):
+    return lambda f: any(_safe(p, f) for p in preds)
+
+
+def pass_edges(F, body, pred, edge_ok=None):
+    base = guard_edges(F, body, pred)
+    return derived_guard_edges(body, base, edge_ok=edge_ok, pred=pred)
+
+
+def unguarded(F, body, sites, pred, edge_ok=None):
+    """sites still reachable without passing an edge on which `pred` holds -> [(site, path)]"""
+    g = pass_edges(F, body, pred, edge_ok)
+    if not g:
+        seen = body.reachable(edge_ok=edge_ok)
+        return [(s, body.path_to(seen, s)) for s in sites if s in seen]
+    return cut_sites(body, sites, g, edge_ok)
